@@ -1,5 +1,6 @@
 \* quick algebra facet: q = 11, n <= 4, t <= 2, EVERY polynomial, every committee, challenge values {0, 1, 7};
 \* one attempt, all corruption kinds, ascending submission order
+\* measured: 50,314 distinct / 1,316,403 generated states, 24 s (16 workers)
 CONSTANTS
   Q = 11
   NSet = {1, 2, 3, 4}
